@@ -3,15 +3,17 @@
 ! Every PSyData prefix used by the check gets a module <prefix>_psy_data_mod with a
 ! type <prefix>_PSyDataType that extends c28_PSyDataBaseType below.  The interface
 ! follows /repo/lib/psy_data_base.jinja (PreStart, PreDeclareVariable,
-! PreEndDeclaration, ProvideVariable, PreEnd, PostStart, PostEnd).  The library does
-! nothing but print the call order on standard output:
+! PreEndDeclaration, ProvideVariable, PreEnd, PostStart, PostEnd; the generic
+! PreDeclareVariable / ProvideVariable cover integer, real, double precision and
+! logical scalars, integer arrays of rank 1-3 and real / double precision arrays of
+! rank 1).  The library does nothing but print the call order on standard output:
 !
 !   ENTER <module> <region>      from PreStart (the names passed by the caller)
 !   EXIT <module> <region>       from PostEnd  (the names remembered by the handle;
 !                                 "?" "?" if the handle never saw a PreStart)
 !
-! With c28_verbose = .true. the other hooks print DECL/ENDDECL/PROV/PREEND/POSTSTART
-! lines as well (used for debugging only, never by the oracle).
+! With c28_verbose = .true. the other hooks print NVARS/DECL/ENDDECL/PROV/PREEND/
+! POSTSTART lines as well (debugging aid, never used by the oracle).
 module c28_psy_data_base_mod
   implicit none
   private
@@ -35,12 +37,7 @@ module c28_psy_data_base_mod
     procedure :: DeclareArray2dInt
     procedure :: DeclareArray3dInt
     procedure :: DeclareArray1dReal
-    procedure :: DeclareArray2dReal
     procedure :: DeclareArray1dDouble
-    procedure :: DeclareArray2dDouble
-    procedure :: DeclareArray1dLogical
-    procedure :: DeclareArray2dLogical
-    procedure :: DeclareArray3dLogical
     procedure :: ProvideScalarInt
     procedure :: ProvideScalarReal
     procedure :: ProvideScalarDouble
@@ -49,22 +46,15 @@ module c28_psy_data_base_mod
     procedure :: ProvideArray2dInt
     procedure :: ProvideArray3dInt
     procedure :: ProvideArray1dReal
-    procedure :: ProvideArray2dReal
     procedure :: ProvideArray1dDouble
-    procedure :: ProvideArray2dDouble
-    procedure :: ProvideArray1dLogical
-    procedure :: ProvideArray2dLogical
-    procedure :: ProvideArray3dLogical
-    generic, public :: PreDeclareVariable => DeclareScalarInt, DeclareScalarReal, &
-        DeclareScalarDouble, DeclareScalarLogical, DeclareArray1dInt, &
-        DeclareArray2dInt, DeclareArray3dInt, DeclareArray1dReal, &
-        DeclareArray2dReal, DeclareArray1dDouble, DeclareArray2dDouble, &
-        DeclareArray1dLogical, DeclareArray2dLogical, DeclareArray3dLogical
-    generic, public :: ProvideVariable => ProvideScalarInt, ProvideScalarReal, &
-        ProvideScalarDouble, ProvideScalarLogical, ProvideArray1dInt, &
-        ProvideArray2dInt, ProvideArray3dInt, ProvideArray1dReal, &
-        ProvideArray2dReal, ProvideArray1dDouble, ProvideArray2dDouble, &
-        ProvideArray1dLogical, ProvideArray2dLogical, ProvideArray3dLogical
+    generic, public :: PreDeclareVariable => &
+        DeclareScalarInt, DeclareScalarReal, DeclareScalarDouble, &
+        DeclareScalarLogical, DeclareArray1dInt, DeclareArray2dInt, &
+        DeclareArray3dInt, DeclareArray1dReal, DeclareArray1dDouble
+    generic, public :: ProvideVariable => &
+        ProvideScalarInt, ProvideScalarReal, ProvideScalarDouble, &
+        ProvideScalarLogical, ProvideArray1dInt, ProvideArray2dInt, &
+        ProvideArray3dInt, ProvideArray1dReal, ProvideArray1dDouble
   end type c28_PSyDataBaseType
 
 contains
@@ -81,17 +71,17 @@ contains
 
   subroutine PreEndDeclaration(this)
     class(c28_PSyDataBaseType), intent(inout), target :: this
-    if (c28_verbose) write(*, '(A)') "ENDDECL"
+    if (c28_verbose) write(*, '(2A)') "ENDDECL ", trim(this%region_name)
   end subroutine PreEndDeclaration
 
   subroutine PreEnd(this)
     class(c28_PSyDataBaseType), intent(inout), target :: this
-    if (c28_verbose) write(*, '(A)') "PREEND"
+    if (c28_verbose) write(*, '(2A)') "PREEND ", trim(this%region_name)
   end subroutine PreEnd
 
   subroutine PostStart(this)
     class(c28_PSyDataBaseType), intent(inout), target :: this
-    if (c28_verbose) write(*, '(A)') "POSTSTART"
+    if (c28_verbose) write(*, '(2A)') "POSTSTART ", trim(this%region_name)
   end subroutine PostStart
 
   subroutine PostEnd(this)
@@ -99,181 +89,136 @@ contains
     write(*, '(4A)') "EXIT ", trim(this%module_name), " ", trim(this%region_name)
   end subroutine PostEnd
 
-  subroutine note(what, name)
+  subroutine note(this, what, name)
+    class(c28_PSyDataBaseType), intent(in) :: this
     character(*), intent(in) :: what, name
-    if (c28_verbose) write(*, '(3A)') what, " ", trim(name)
+    if (c28_verbose) write(*, '(5A)') what, " ", trim(this%region_name), " ", trim(name)
   end subroutine note
 
-  ! ---- PreDeclareVariable -------------------------------------------------
   subroutine DeclareScalarInt(this, name, value)
     class(c28_PSyDataBaseType), intent(inout), target :: this
     character(*), intent(in) :: name
     integer, intent(in) :: value
-    call note("DECL", name)
+    call note(this, "DECL", name)
   end subroutine DeclareScalarInt
+
   subroutine DeclareScalarReal(this, name, value)
     class(c28_PSyDataBaseType), intent(inout), target :: this
     character(*), intent(in) :: name
     real, intent(in) :: value
-    call note("DECL", name)
+    call note(this, "DECL", name)
   end subroutine DeclareScalarReal
+
   subroutine DeclareScalarDouble(this, name, value)
     class(c28_PSyDataBaseType), intent(inout), target :: this
     character(*), intent(in) :: name
     double precision, intent(in) :: value
-    call note("DECL", name)
+    call note(this, "DECL", name)
   end subroutine DeclareScalarDouble
+
   subroutine DeclareScalarLogical(this, name, value)
     class(c28_PSyDataBaseType), intent(inout), target :: this
     character(*), intent(in) :: name
     logical, intent(in) :: value
-    call note("DECL", name)
+    call note(this, "DECL", name)
   end subroutine DeclareScalarLogical
+
   subroutine DeclareArray1dInt(this, name, value)
     class(c28_PSyDataBaseType), intent(inout), target :: this
     character(*), intent(in) :: name
     integer, dimension(:), intent(in) :: value
-    call note("DECL", name)
+    call note(this, "DECL", name)
   end subroutine DeclareArray1dInt
+
   subroutine DeclareArray2dInt(this, name, value)
     class(c28_PSyDataBaseType), intent(inout), target :: this
     character(*), intent(in) :: name
     integer, dimension(:,:), intent(in) :: value
-    call note("DECL", name)
+    call note(this, "DECL", name)
   end subroutine DeclareArray2dInt
+
   subroutine DeclareArray3dInt(this, name, value)
     class(c28_PSyDataBaseType), intent(inout), target :: this
     character(*), intent(in) :: name
     integer, dimension(:,:,:), intent(in) :: value
-    call note("DECL", name)
+    call note(this, "DECL", name)
   end subroutine DeclareArray3dInt
+
   subroutine DeclareArray1dReal(this, name, value)
     class(c28_PSyDataBaseType), intent(inout), target :: this
     character(*), intent(in) :: name
     real, dimension(:), intent(in) :: value
-    call note("DECL", name)
+    call note(this, "DECL", name)
   end subroutine DeclareArray1dReal
-  subroutine DeclareArray2dReal(this, name, value)
-    class(c28_PSyDataBaseType), intent(inout), target :: this
-    character(*), intent(in) :: name
-    real, dimension(:,:), intent(in) :: value
-    call note("DECL", name)
-  end subroutine DeclareArray2dReal
+
   subroutine DeclareArray1dDouble(this, name, value)
     class(c28_PSyDataBaseType), intent(inout), target :: this
     character(*), intent(in) :: name
     double precision, dimension(:), intent(in) :: value
-    call note("DECL", name)
+    call note(this, "DECL", name)
   end subroutine DeclareArray1dDouble
-  subroutine DeclareArray2dDouble(this, name, value)
-    class(c28_PSyDataBaseType), intent(inout), target :: this
-    character(*), intent(in) :: name
-    double precision, dimension(:,:), intent(in) :: value
-    call note("DECL", name)
-  end subroutine DeclareArray2dDouble
-  subroutine DeclareArray1dLogical(this, name, value)
-    class(c28_PSyDataBaseType), intent(inout), target :: this
-    character(*), intent(in) :: name
-    logical, dimension(:), intent(in) :: value
-    call note("DECL", name)
-  end subroutine DeclareArray1dLogical
-  subroutine DeclareArray2dLogical(this, name, value)
-    class(c28_PSyDataBaseType), intent(inout), target :: this
-    character(*), intent(in) :: name
-    logical, dimension(:,:), intent(in) :: value
-    call note("DECL", name)
-  end subroutine DeclareArray2dLogical
-  subroutine DeclareArray3dLogical(this, name, value)
-    class(c28_PSyDataBaseType), intent(inout), target :: this
-    character(*), intent(in) :: name
-    logical, dimension(:,:,:), intent(in) :: value
-    call note("DECL", name)
-  end subroutine DeclareArray3dLogical
 
-  ! ---- ProvideVariable ----------------------------------------------------
   subroutine ProvideScalarInt(this, name, value)
     class(c28_PSyDataBaseType), intent(inout), target :: this
     character(*), intent(in) :: name
     integer, intent(in) :: value
-    call note("PROV", name)
+    call note(this, "PROV", name)
   end subroutine ProvideScalarInt
+
   subroutine ProvideScalarReal(this, name, value)
     class(c28_PSyDataBaseType), intent(inout), target :: this
     character(*), intent(in) :: name
     real, intent(in) :: value
-    call note("PROV", name)
+    call note(this, "PROV", name)
   end subroutine ProvideScalarReal
+
   subroutine ProvideScalarDouble(this, name, value)
     class(c28_PSyDataBaseType), intent(inout), target :: this
     character(*), intent(in) :: name
     double precision, intent(in) :: value
-    call note("PROV", name)
+    call note(this, "PROV", name)
   end subroutine ProvideScalarDouble
+
   subroutine ProvideScalarLogical(this, name, value)
     class(c28_PSyDataBaseType), intent(inout), target :: this
     character(*), intent(in) :: name
     logical, intent(in) :: value
-    call note("PROV", name)
+    call note(this, "PROV", name)
   end subroutine ProvideScalarLogical
+
   subroutine ProvideArray1dInt(this, name, value)
     class(c28_PSyDataBaseType), intent(inout), target :: this
     character(*), intent(in) :: name
     integer, dimension(:), intent(in) :: value
-    call note("PROV", name)
+    call note(this, "PROV", name)
   end subroutine ProvideArray1dInt
+
   subroutine ProvideArray2dInt(this, name, value)
     class(c28_PSyDataBaseType), intent(inout), target :: this
     character(*), intent(in) :: name
     integer, dimension(:,:), intent(in) :: value
-    call note("PROV", name)
+    call note(this, "PROV", name)
   end subroutine ProvideArray2dInt
+
   subroutine ProvideArray3dInt(this, name, value)
     class(c28_PSyDataBaseType), intent(inout), target :: this
     character(*), intent(in) :: name
     integer, dimension(:,:,:), intent(in) :: value
-    call note("PROV", name)
+    call note(this, "PROV", name)
   end subroutine ProvideArray3dInt
+
   subroutine ProvideArray1dReal(this, name, value)
     class(c28_PSyDataBaseType), intent(inout), target :: this
     character(*), intent(in) :: name
     real, dimension(:), intent(in) :: value
-    call note("PROV", name)
+    call note(this, "PROV", name)
   end subroutine ProvideArray1dReal
-  subroutine ProvideArray2dReal(this, name, value)
-    class(c28_PSyDataBaseType), intent(inout), target :: this
-    character(*), intent(in) :: name
-    real, dimension(:,:), intent(in) :: value
-    call note("PROV", name)
-  end subroutine ProvideArray2dReal
+
   subroutine ProvideArray1dDouble(this, name, value)
     class(c28_PSyDataBaseType), intent(inout), target :: this
     character(*), intent(in) :: name
     double precision, dimension(:), intent(in) :: value
-    call note("PROV", name)
+    call note(this, "PROV", name)
   end subroutine ProvideArray1dDouble
-  subroutine ProvideArray2dDouble(this, name, value)
-    class(c28_PSyDataBaseType), intent(inout), target :: this
-    character(*), intent(in) :: name
-    double precision, dimension(:,:), intent(in) :: value
-    call note("PROV", name)
-  end subroutine ProvideArray2dDouble
-  subroutine ProvideArray1dLogical(this, name, value)
-    class(c28_PSyDataBaseType), intent(inout), target :: this
-    character(*), intent(in) :: name
-    logical, dimension(:), intent(in) :: value
-    call note("PROV", name)
-  end subroutine ProvideArray1dLogical
-  subroutine ProvideArray2dLogical(this, name, value)
-    class(c28_PSyDataBaseType), intent(inout), target :: this
-    character(*), intent(in) :: name
-    logical, dimension(:,:), intent(in) :: value
-    call note("PROV", name)
-  end subroutine ProvideArray2dLogical
-  subroutine ProvideArray3dLogical(this, name, value)
-    class(c28_PSyDataBaseType), intent(inout), target :: this
-    character(*), intent(in) :: name
-    logical, dimension(:,:,:), intent(in) :: value
-    call note("PROV", name)
-  end subroutine ProvideArray3dLogical
 
 end module c28_psy_data_base_mod
